@@ -196,6 +196,16 @@ func checkNoClobber(x *Exec, r *Rig, p concParams, recs [][]opRec, contents map[
 			}
 		}
 	}
+	mayHaveExpired := false
+	if p.Cfg.Expiry != "" {
+		for _, rs := range recs {
+			for _, rc := range rs {
+				if opFields(rc.op)[0] == "adv" {
+					mayHaveExpired = true
+				}
+			}
+		}
+	}
 	for _, lc := range r.Loads {
 		reloading := lc.Kind == "reload" || lc.Kind == "bulkreload"
 		for _, k := range lc.Keys {
@@ -258,6 +268,8 @@ func checkNoClobber(x *Exec, r *Rig, p concParams, recs [][]opRec, contents map[
 					what = "the loaded value"
 				}
 				x.Fail("load-overwrote-invalidation", opName(last.rc.op)+lbl, "key %d was removed by %q (began at %d, after the loader was entered at %d) but afterwards the cache holds %s %d", k, last.rc.op, last.rc.call, lc.Enter, what, got)
+			case !last.remove && !present && mayHaveExpired:
+				// the written entry ran out while the load was still in flight: nothing left is fine, the loaded value is not
 			case !last.remove && (!present || got != last.val):
 				what := fmt.Sprintf("%d", got)
 				if !present {
